@@ -121,9 +121,12 @@ def run(tier: str) -> int:
     try:
         if tier == "quick":
             rs = run_many([job("a1", MaxOps=4, MaxDepth=2, Interrupts="FALSE"), job("a2", Names='{"a","b"}', MaxOps=3, MaxDepth=2, Interrupts="FALSE"),
-                           job("a3", MaxOps=3)], parallel=3)
+                           job("a3", MaxOps=3),
+                           # the shared partial reached (also through another shared partial) from inside AND after binding blocks: 5-6 steps
+                           job("a4", MaxOps=6, MaxDepth=2, Interrupts="FALSE", OnlyOps="OpsLeafLoops")], parallel=4)
         else:
-            rs = run_many([job("a1", MaxOps=5, MaxDepth=3), job("a2", Names='{"a","b"}', MaxOps=4, MaxDepth=3), job("a3", MaxOps=4, GlobalSets="GlobalsQuick")], parallel=3)
+            rs = run_many([job("a1", MaxOps=5, MaxDepth=3), job("a2", Names='{"a","b"}', MaxOps=4, MaxDepth=3), job("a3", MaxOps=4, GlobalSets="GlobalsQuick"),
+                           job("a4", MaxOps=7, MaxDepth=3, Interrupts="FALSE", OnlyOps="OpsLeafLoops")], parallel=4)
     finally:
         cleanup_gen()
     cases = []
@@ -140,7 +143,7 @@ def run(tier: str) -> int:
         ck.cov["sampled_from"] = len(cases)
         rest = rnd.sample(rest, cap)
     ck.cov["programs_visiting_the_shared_partial_twice"] = len(multi)
-    jobs = [(c, 6 + (i % 6)) for i, c in enumerate(multi)] + \
+    jobs = [(c, 6 + (i % 6)) for i, c in enumerate(multi)] + [(c, 6 + ((i + 1) % 6)) for i, c in enumerate(multi) if nleaf(c) >= 3] + \
            [(c, (i % 6) + (6 if nleaf(c) and i % 2 else 0)) for i, c in enumerate(rest)]
     # partials named like a variable and bound `with .. as alias` (two-name programs): reads only in that partial and in the leaf
     named = [c for c in cases if len(c["prog"][0]["reads"]) > 1 and any(r["op"] in ("render", "include") and r["n"] == "a" and r["v"] != "nil" for r in c["prog"])]
